@@ -157,6 +157,8 @@ class Checker(C.BaseChecker):
                 api = {}
                 api["in"] = ref in ts
                 api["json"] = ts[ref]
+                api["get"] = ts.get(ref)
+                api["items"] = {C.ref_ep(k): v for k, v in ts.items()}.get(ep, "missing")
                 api["pp"] = [{"group": r.group, "name": r.name, "version": list(r.version)} for r in ts.parent_path(ref)]
                 api["prov"] = json.loads(ts.provider(ref).json())
             except Exception as e:  # noqa
@@ -167,6 +169,10 @@ class Checker(C.BaseChecker):
                 bad.append("ref not in toc.schemas")
             if api["json"] != emb:
                 bad.append("toc.schemas[ref] != embedded JSON Schema")
+            if api["get"] != emb:
+                bad.append(f"toc.schemas.get(ref) {'reports nothing (None) instead of' if api['get'] is None else 'reports something else than'} the embedded JSON Schema")
+            if api["items"] != emb:
+                bad.append("toc.schemas.items() does not list the embedded JSON Schema for it")
             if api["pp"] != ent["compat"]:
                 bad.append(f"parent_path {api['pp']} != compat {ent['compat']}")
             if not any(api["prov"] == pj for _, pj in prov):
